@@ -1,6 +1,6 @@
 (* C12 — proofs about the float branches of model/C11_Num.v. *)
 From Coq Require Import QArith Qabs Qround Qcanon Lia Floats.SpecFloat.
-From verif Require Import lib.Base model.C11_Num model.C12 proofs.C11_proofs.
+From verif Require Import lib.Base model.C11_Num model.C12 proofs.C11_proofs proofs.C12_dyadic.
 Open Scope Z_scope.
 
 (* ------------------------------------------------------------------ *)
@@ -69,15 +69,6 @@ Proof. intros H. simpl. rewrite H. reflexivity. Qed.
 
 (* ------------------------------------------------------------------ *)
 (* integers up to 2^53 convert exactly *)
-Lemma digits2_bounds p :
-  2 ^ (Z.pos (digits2_pos p) - 1) <= Z.pos p < 2 ^ Z.pos (digits2_pos p).
-Proof. induction p as [p IH|p IH|]; cbn [digits2_pos].
-  - rewrite Pos2Z.inj_succ. replace (Z.succ (Z.pos (digits2_pos p)) - 1) with (Z.succ (Z.pos (digits2_pos p) - 1)) by lia.
-    rewrite !Z.pow_succ_r by lia. lia.
-  - rewrite Pos2Z.inj_succ. replace (Z.succ (Z.pos (digits2_pos p)) - 1) with (Z.succ (Z.pos (digits2_pos p) - 1)) by lia.
-    rewrite !Z.pow_succ_r by lia. lia.
-  - cbn. lia. Qed.
-
 Definition signed (s : bool) (q : Z) : Z := if s then - q else q.
 
 Lemma f_of_small_value s q : 0 <= q <= 9007199254740992 ->
@@ -103,9 +94,49 @@ Proof. intros Hq. destruct q as [|p|p]; try lia.
         rewrite Z2Pos.id by lia. destruct s; cbn [signed]; lia.
 Qed.
 
+(* an integer 0 < p <= 2^53 has a canonical mantissa/exponent pair, which is what
+   f_of_small builds *)
+Lemma f_of_small_canonical s p : Z.pos p <= 9007199254740992 ->
+  exists m e, f_of_small s (Z.pos p) = S754_finite s m e
+    /\ bounded prec emax m e = true /\ dy_eq p 0 m e.
+Proof. intros Hp. unfold f_of_small. cbn [Zdigits2]. pose proof (digits2_bounds p) as B.
+  set (dg := Z.pos (digits2_pos p)) in *.
+  destruct (53 - dg <? 0) eqn:D.
+  - apply Z.ltb_lt in D. assert (dg = 54).
+    { assert (dg <= 54); [|lia]. destruct (Z_le_gt_dec dg 54); [assumption|].
+      assert (2 ^ 54 <= 2 ^ (dg - 1)) by (apply Z.pow_le_mono_r; lia).
+      change (2 ^ 54) with 18014398509481984 in *. lia. }
+    rewrite H in B. change (2 ^ (54 - 1)) with 9007199254740992 in B.
+    assert (E : Z.pos p = 9007199254740992) by lia.
+    exists 4503599627370496%positive, 1. split; [reflexivity|]. split; [reflexivity|].
+    exists 0. split; [lia|]. split; [lia|]. rewrite E. reflexivity.
+  - apply Z.ltb_ge in D. rewrite Z.shiftl_mul_pow2 by lia.
+    assert (P : 0 < 2 ^ (53 - dg)) by (apply Z.pow_pos_nonneg; lia).
+    destruct (Z.pos p * 2 ^ (53 - dg)) as [|m|m] eqn:M; try lia.
+    exists m, (- (53 - dg)). split; [reflexivity|].
+    assert (Dm : Z.pos (digits2_pos m) = 53).
+    { rewrite (digits2_mul_pow2 p m (53 - dg)) by (lia || (symmetry; exact M)). fold dg. lia. }
+    assert (dg >= 1) by (unfold dg; lia).
+    split.
+    + unfold bounded, canonical_mantissa, fexp, emin, prec, emax. rewrite Dm.
+      apply andb_true_iff. split; [apply Zeq_is_eq_bool|apply Z.leb_le]; lia.
+    + exists (- (53 - dg)). split; [lia|]. split; [lia|].
+      rewrite Z.sub_diag, Z.mul_1_r. replace (0 - - (53 - dg)) with (53 - dg) by lia. exact M.
+Qed.
+
+Lemma of_Z_small z : z <> 0 -> Z.abs z <= 9007199254740992 ->
+  of_Z z = f_of_small (z <? 0) (Z.abs z).
+Proof. intros Nz H. destruct z as [|p|p]; [congruence| |]; cbn [of_Z Z.abs Z.ltb Z.compare] in *.
+  - destruct (f_of_small_canonical false p H) as (m & e & E & Bd & Dy). rewrite E.
+    apply f_of_dyadic_exact; assumption.
+  - destruct (f_of_small_canonical true p H) as (m & e & E & Bd & Dy). rewrite E.
+    apply f_of_dyadic_exact; assumption.
+Qed.
+
 Theorem to_f64_int_exact_below_2p53 z : Z.abs z <= 9007199254740992 ->
   (f_to_Q (to_f64 (NInt z)) == z # 1)%Q.
-Proof. intros H. cbn [to_f64]. unfold of_Z. apply Z.leb_le in H as H'. rewrite H'.
+Proof. intros H. cbn [to_f64]. destruct (Z.eq_dec z 0) as [->|Nz]; [reflexivity|].
+  rewrite of_Z_small by assumption.
   rewrite f_of_small_value by lia. unfold signed.
   destruct (z <? 0) eqn:S; [apply Z.ltb_lt in S|apply Z.ltb_ge in S].
   - rewrite Z.abs_neq by lia. rewrite Z.opp_involutive. reflexivity.
@@ -121,29 +152,6 @@ Proof. intros H. unfold call, call_raw, exact_num. rewrite H. cbn [map_result ma
 Theorem exact_num_nonfinite f : f_is_finite f = false ->
   call CExactNum [NFloat f] None = RErr ENotFinite.
 Proof. intros H. unfold call, call_raw, exact_num. rewrite H. reflexivity. Qed.
-
-(* ------------------------------------------------------------------ *)
-(* exact-num then inexact-num gives the float back: integers up to 2^53 *)
-Lemma Qred_int z : Qred (z # 1) = z # 1.
-Proof. apply Qred_iff. cbn. apply Z.gcd_1_r. Qed.
-
-Lemma f_of_small_finite s q : f_is_finite (f_of_small s q) = true.
-Proof. unfold f_of_small. destruct q; try reflexivity. destruct (_ <? 0); try reflexivity.
-  destruct (Z.shiftl _ _); reflexivity. Qed.
-
-Theorem exact_inexact_roundtrip_partial z : Z.abs z <= 9007199254740992 ->
-  let f := to_f64 (NInt z) in
-  call CInexactNum [NInt z] None = RVals [NFloat f]
-  /\ exists v, call CExactNum [NFloat f] None = RVals [v] /\ to_f64 v = f.
-Proof. intros H f. split; [reflexivity|].
-  pose proof (to_f64_int_exact_below_2p53 z H) as V. fold f in V.
-  assert (Fin : f_is_finite f = true).
-  { unfold f. cbn [to_f64]. unfold of_Z. apply Z.leb_le in H. rewrite H. apply f_of_small_finite. }
-  unfold call, call_raw, exact_num. rewrite Fin. cbn [map_result map from_go].
-  unfold normalize_rat. rewrite (Qred_complete _ _ V), Qred_int. cbn [Qden Qnum Pos.eqb].
-  unfold normalize_big.
-  assert (I : in_int z = true) by (apply in_int_iff; unfold min_int, max_int; lia).
-  rewrite I. eexists. split; reflexivity. Qed.
 
 (* ------------------------------------------------------------------ *)
 (* floor ceil trunc round round-to-even of a finite double are integers *)
@@ -232,3 +240,14 @@ Proof. intros Hc Hl Hn. destruct (all_float_conv l Hl) as (C1 & C2 & C3).
     + rewrite C2. cbn. apply f_eqb_refl.
     + rewrite C2, R1. cbn [andb conv to_f64]. apply f_eqb_refl.
 Qed.
+
+(* ------------------------------------------------------------------ *)
+(* math:min / math:max with a float among the arguments: conversion, then a left
+   fold of Go's math.Min / math.Max from the first argument *)
+Theorem minmax_float_fold (lt : bool) a r : has_inexact (a :: r) ->
+  call (if lt then CMin else CMax) (a :: r) None =
+  RVals [NFloat (fold_left (if lt then f_min else f_max) (map to_f64 r) (to_f64 a))].
+Proof. intros H.
+  assert (E : call (if lt then CMin else CMax) (a :: r) None = map_result from_go (minmax lt (a :: r)))
+    by (destruct lt; reflexivity).
+  rewrite E. unfold minmax. rewrite unify_float by exact H. reflexivity. Qed.
